@@ -210,7 +210,9 @@ def xguard (hw : Bool) (sys : Sys) (j : Json) : Bool :=
   | some "sub" =>
     (match (jField? j "a").bind jNat?, (jField? j "fuel").bind jNat?,
         ((jField? j "p").bind jArr?).bind (fun p => p.toList.mapM xinstr?) with
-     | some a, some fuel, some prog => (runG hw a prog fuel sys.s 0).isNone
+     | some a, some fuel, some prog =>
+       let os := ((jField? j "or").bind jInts?).getD []
+       (runG hw a prog fuel { sys.s with oracle := os } 0).isNone
      | _, _, _ => false)
   | some k =>
     if k == "tick" || k == "hooktick" || k == "abort" then
